@@ -13,6 +13,7 @@ import Martian.Semaphore
 import Proofs.Semaphore
 import Proofs.SemaphoreRun
 import Proofs.SemaphoreMJ
+import Gen.Facts
 
 namespace Props.C12
 open Martian.Semaphore
@@ -317,6 +318,17 @@ theorem normalize_idempotent (c : LocalCfg) (hc : Sane c) (m1 v1 m2 v2 : Int) (r
         unfold reqV3 at hz
         split at hz <;> omega
       · exact reqV_fix c v2 _ _ _ hz (fun h => absurd h hv) (fun _ => hb)
+
+/-! ## Regenerated obligations (jobmanager_local.go as it is now) -/
+
+/-- Every local job takes the semaphores in one and the same order
+(cores → memory → vmem → processes), the order `acquireAmounts` lists them in;
+fails on a tree whose `Enqueue` acquires in another order. -/
+theorem acquire_order_ok :
+    Gen.localAcquireOrder = ["centcoreSem", "memMBSem", "vmemMBSem", "procsSem"] := by decide
+
+/-- the per-job process estimate constant used by the model is the one in the source -/
+theorem procs_per_job_ok : Gen.localProcsPerJob = procsPerJob := by decide
 
 /-! ## Non-vacuity -/
 
